@@ -284,6 +284,7 @@ Eff(op, s) ==
                            ELSE IF ~IsHeap(hp, stk[mi - 1], "list") THEN Err(s, "typing")
                            ELSE [s EXCEPT !.heap[stk[mi - 1].id].e = @ \o above, !.stack = below]
     [] op.o = "SETITEM" -> IF fr < 3 THEN Err(s, "vm")
+                           ELSE IF IsStubRef(hp, top3) /\ ~Hashable(hp, top2) THEN Err(s, "typing")   \* dict-like items have hashable keys
                            ELSE IF IsStubRef(hp, top3)
                                 THEN [s EXCEPT !.ev = Append(@, EvSetItem(top3, top2, top, hp)),
                                                !.heap[top3.id].di = Append(@, <<top2, top>>), !.stack = SubSeq(stk, 1, n - 2)]
@@ -291,6 +292,8 @@ Eff(op, s) ==
                            ELSE IF ~Hashable(hp, top2) THEN Err(s, "vm")
                            ELSE [s EXCEPT !.heap[top3.id].e = DictPut(@, top2, top), !.stack = SubSeq(stk, 1, n - 2)]
     [] op.o = "SETITEMS" -> IF mi < 2 \/ IsMark(stk[mi - 1]) THEN Err(s, "vm")
+                            ELSE IF IsStubRef(hp, stk[mi - 1]) /\ fr % 2 = 0 /\ (\E i \in EvenIdx(above) : ~Hashable(hp, above[i]))
+                                 THEN Err(s, "typing")
                             ELSE IF IsStubRef(hp, stk[mi - 1]) /\ fr % 2 = 0
                                  THEN SetItemsOnStub(s, stk[mi - 1], above, below)
                             ELSE IF ~IsHeap(hp, stk[mi - 1], "dict") THEN Err(s, "typing")
